@@ -25,8 +25,10 @@ def obs (s : St) : List WP × List TS × Nat × DPC × Nat × Option Nat := (s.w
 
 theorem obs_strip (s : St) : obs (strip s) = obs s := rfl
 
-/-- steps of the signals thread and deliveries -/
+/-- steps of the signals thread and deliveries; not its end: a thread that handles no signal ends too when dsh()
+    cancels it -/
 def Label.erased : Label → Bool
+  | .s .die => false
   | .s _ => true
   | .e (.deliver _) => true
   | _ => false
@@ -72,7 +74,18 @@ theorem strip_kept {s s' : St} {l : Label} (hl : l.erased = false) (hs : step s 
       rename_i hg
       have e2 : (strip s).gpc = .sleeping := hg
       simp only [e2]; rfl
-  | s a => simp [Label.erased] at hl
+  | s a =>
+    cases a with
+    | die =>
+      have hd := step_s hs
+      rw [step_of_s hx']
+      simp only [sStep] at hd ⊢
+      split at hd <;> simp at hd; subst hd
+      rename_i hg
+      have e : (strip s).scan = true ∧ (strip s).spc ≠ .off ∧ (strip s).spc ≠ .cancelled :=
+        ⟨hg.1, fun h => hg.2.1 (stripSpc_off.mp h), fun h => hg.2.2 (stripSpc_cancelled.mp h)⟩
+      rw [if_pos e]; simp [strip, stripSpc]
+    | _ => simp [Label.erased] at hl
   | e a =>
     cases a with
     | deliver g => simp [Label.erased] at hl
@@ -203,10 +216,10 @@ theorem strip_kept {s s' : St} {l : Label} (hl : l.erased = false) (hs : step s 
       split at hd <;> (try split at hd) <;> simp at hd; subst hd
       rename_i hdp hc
       have e1 : (strip s).dpc = .finishing := hdp
-      have e2 : ¬ ((strip s).spc = .cancelled ∨ ((strip s).sw = true ∧ (strip s).gjoin = false)) := by
+      have e2 : ¬ ((strip s).scan = true ∨ ((strip s).sw = true ∧ (strip s).gjoin = false)) := by
         intro h; apply hc
         rcases h with h | h
-        · exact Or.inl (stripSpc_cancelled.mp h)
+        · exact Or.inl h
         · exact Or.inr h
       simp only [e1]; rw [if_neg e2]; simp [strip, hdp, stripSpc]
     | ret =>
@@ -214,8 +227,9 @@ theorem strip_kept {s s' : St} {l : Label} (hl : l.erased = false) (hs : step s 
       split at hd <;> (try split at hd) <;> simp at hd; subst hd
       rename_i hdp hc
       have e1 : (strip s).dpc = .finishing := hdp
-      have e2 : (strip s).spc = .cancelled := stripSpc_cancelled.mpr hc
-      simp only [e1, e2, if_true]; simp [strip, hc, stripSpc]
+      have e2 : (strip s).scan = true ∧ ((strip s).sw = true → (strip s).spc = .cancelled) :=
+        ⟨hc.1, fun h => stripSpc_cancelled.mpr (hc.2 h)⟩
+      simp only [e1]; rw [if_pos e2]; simp [strip, hdp]
 
 /-- a harmless step of the signals thread, or a delivery, is invisible after stripping -/
 theorem strip_erased {s s' : St} {l : Label} (hm : MInv s) (hl : l.erased = true) (hh : l.harmless = true)
@@ -233,6 +247,7 @@ theorem strip_erased {s s' : St} {l : Label} (hm : MInv s) (hl : l.erased = true
   | s a =>
     have hd := step_s hs
     cases a with
+    | die => simp [Label.erased] at hl
     | fwd h => simp [Label.harmless] at hh
     | exit c => simp [Label.harmless] at hh
     | lock => simp [Label.harmless] at hh
